@@ -146,6 +146,9 @@ type Truth struct {
 var ClientAddrMatch = []byte{10, 1, 2, 3}
 var ClientAddrOther = []byte{10, 9, 9, 9}
 
+// ClientAddrMatch6 is the client's address in the other family (IPv6, address type 24).
+var ClientAddrMatch6 = []byte{0xfd, 0, 0, 0, 0, 0, 0, 0, 0, 0, 0, 0, 10, 1, 2, 3}
+
 func hasDefect(ds []Defect, kind string) *Defect {
 	for i := range ds {
 		if ds[i].Kind == kind {
@@ -253,6 +256,10 @@ func (m *Minter) Mint(spec ReqSpec, s time.Time, skew time.Duration, r *core.Rng
 		etp.CAddr = []rk.HostAddress{{Type: 2, Addr: ClientAddrOther}}
 	case "both":
 		etp.CAddr = []rk.HostAddress{{Type: 2, Addr: ClientAddrOther}, {Type: 2, Addr: ClientAddrMatch}}
+	case "match6":
+		etp.CAddr = []rk.HostAddress{{Type: 24, Addr: ClientAddrMatch6}}
+	case "other4-match6":
+		etp.CAddr = []rk.HostAddress{{Type: 2, Addr: ClientAddrOther}, {Type: 24, Addr: ClientAddrMatch6}}
 	}
 	for _, a := range etp.CAddr {
 		tr.Addrs = append(tr.Addrs, a.Addr)
@@ -431,7 +438,7 @@ func mutateCipher(c *[]byte, ds []Defect, which string, r *core.Rng) bool {
 type ServiceSettings struct {
 	SkewS       int64  `json:"skew_s"` // 0 = not configured (the documented default of five minutes applies)
 	RequireAddr bool   `json:"require_addr,omitempty"`
-	ClientAddr  string `json:"client_addr,omitempty"` // "" | match | other
+	ClientAddr  string `json:"client_addr,omitempty"` // "" | match | other | match6 (the client's IPv6 address)
 	KtPrinc     string `json:"ktprinc,omitempty"`     // "" | principal name used for the key look-up
 	DecodePAC   bool   `json:"decode_pac,omitempty"`
 }
@@ -499,6 +506,8 @@ func Accept(tr *Truth, st ServiceSettings, kt *KeytabModel, now time.Time, repla
 		ca = ClientAddrMatch
 	case "other":
 		ca = ClientAddrOther
+	case "match6":
+		ca = ClientAddrMatch6
 	}
 	if len(tr.Addrs) == 0 {
 		if st.RequireAddr {
